@@ -447,7 +447,8 @@ class ExitStack:
         suppress_exc = False
         reraise_exc = False
         # Callbacks are invoked in LIFO order to match nested context managers
-        for callback in reversed(self._exit_callbacks):
+        while self._exit_callbacks:
+            callback = self._exit_callbacks.pop()
             try:
                 if await callback(exc_type, exc_val, tb):
                     suppress_exc = True
